@@ -101,7 +101,7 @@ func (h *VP9FrameHeader) Encode(n int, seed byte) []byte {
 	}
 	b := w.Buf
 	for len(b) < n {
-		b = append(b, byte(len(b)*11)+seed)
+		b = append(b, byte(len(b)*11+(len(b)>>8)*13+(len(b)>>16)*29)+seed) // no power-of-two period
 	}
 	return b
 }
